@@ -980,6 +980,20 @@ ExpressionEvaluator::evaluate_typed_expression_internal(const ASTNode *node) {
             }
         }
 
+        // The index expressions of this element access are evaluated at most
+        // once, left to right, the first time one of the cases below needs
+        // them. Every later case (and the final fallback) reuses the values
+        // instead of evaluating the index expressions again.
+        std::vector<int64_t> indices;
+        bool indices_evaluated = false;
+        auto element_indices = [&]() -> const std::vector<int64_t> & {
+            if (!indices_evaluated) {
+                indices = interpreter_.extract_array_indices(node);
+                indices_evaluated = true;
+            }
+            return indices;
+        };
+
         // v0.13.2: Handle struct member array access (e.g., obj.items[0])
         // Check actual member type instead of relying on inferred_type
         if (node->left &&
@@ -999,8 +1013,7 @@ ExpressionEvaluator::evaluate_typed_expression_internal(const ASTNode *node) {
             }
 
             if (!object_name.empty() && node->array_index) {
-                int64_t array_index =
-                    evaluate_expression(node->array_index.get());
+                int64_t array_index = element_indices().back();
 
                 // Try to get the member variable to check its actual type
                 try {
@@ -1062,8 +1075,7 @@ ExpressionEvaluator::evaluate_typed_expression_internal(const ASTNode *node) {
 
         if (inferred_type.type_info == TYPE_STRING) {
             std::string array_name = interpreter_.extract_array_name(node);
-            std::vector<int64_t> indices =
-                interpreter_.extract_array_indices(node);
+            element_indices();
 
             if (!array_name.empty() && !indices.empty()) {
                 bool resolved = false;
@@ -1120,7 +1132,7 @@ ExpressionEvaluator::evaluate_typed_expression_internal(const ASTNode *node) {
 
         // 通常の配列要素アクセスの場合 - float/double配列対応
         std::string array_name = interpreter_.extract_array_name(node);
-        std::vector<int64_t> indices = interpreter_.extract_array_indices(node);
+        element_indices();
 
         if (!array_name.empty() && !indices.empty()) {
             Variable *var = interpreter_.find_variable(array_name);
@@ -1316,7 +1328,10 @@ ExpressionEvaluator::evaluate_typed_expression_internal(const ASTNode *node) {
 
             if (!obj_name.empty()) {
                 std::string member_name = node->left->name;
-                int64_t index = evaluate_expression(node->array_index.get());
+                int64_t index = indices.empty()
+                                    ? evaluate_expression(
+                                          node->array_index.get())
+                                    : indices.back();
 
                 // 構造体メンバー配列要素を取得
                 try {
@@ -1344,7 +1359,17 @@ ExpressionEvaluator::evaluate_typed_expression_internal(const ASTNode *node) {
         }
 
         // フォールバック: 通常の整数評価
-        int64_t numeric_result = evaluate_expression(node);
+        // (same as evaluate_expression(node), but the index values computed
+        // above are handed over so that they are not evaluated again)
+        auto eval_func = [this](const ASTNode *n) {
+            return this->evaluate_expression(n);
+        };
+        auto get_member_func = [this](const Variable &v,
+                                      const std::string &name) {
+            return this->get_struct_member_from_variable(v, name);
+        };
+        int64_t numeric_result = ArrayAccessHelpers::evaluate_array_ref(
+            node, interpreter_, eval_func, get_member_func, &indices);
         return consume_numeric_typed_value(node, numeric_result, inferred_type);
     }
 
